@@ -6,7 +6,9 @@
    (drawn from the free list / exhaustion with an empty free list).  Theorems quantify over every
    accepted history, i.e. over every allocation policy, including the code's own (C01_lifo_is_accepted).
    [ledger evs] is the ownership map recomputed from the observable events only.
-   [Repaired] is the behaviour with fixes/C01_*.patch applied; [Defective] is the code as found. *)
+   Variants: [Repaired] = every recorded defect repaired (all fixes/C01_*.patch applied) - the theorems;
+   [Unguarded] = /repo HEAD 85029df (range loops unguarded, PD prefix length unvalidated);
+   [SharedVrf], [Defective] = earlier states of the code (see Model.v). *)
 From OV Require Import Common.Base C01.Model C01.Proofs C01.ProofsPD C01.ProofsReg.
 Local Open Scope N_scope.
 
@@ -116,6 +118,39 @@ Example C01_pool_nonvacuous :
 Proof. split; eexists; eexists; vm_compute; [split|]; reflexivity. Qed.
 Print Assumptions C01_pool_nonvacuous.
 
+(* ---------------------------------------------------------------- the range loop of buildFreeList / parseExcludeRange *)
+(* [range_loop] is `for addr := lo; addr.Compare(hi) <= 0; addr = addr.Next()` with netip's Next()
+   (zero Addr after the last address of a family) and Compare (zero Addr below every address).
+   /repo HEAD: when the range end is the last address of its family (255.255.255.255, ffff:..:ffff)
+   or the range runs from an IPv4 to an IPv6 address, the loop runs out of ANY amount of fuel:
+   NewPoolAllocator / newRegistry never return (and allocate without bound). *)
+Theorem C01_range_loop_diverges :
+  forall v lo hi, snd lo <= fam_max (fst lo) -> range_terminates v lo hi = false ->
+    forall fuel, range_loop false fuel (XA lo) hi = None.
+Proof. exact range_terminates_false_diverges. Qed.
+Print Assumptions C01_range_loop_diverges.
+
+Theorem C01_range_unguarded_refuted :
+  pool_geom Unguarded (V4, 4294967290) (V4, 4294967295) [] = None /\
+  pool_geom Unguarded (V6, 5) (V6, 340282366920938463463374607431768211455) [] = None /\
+  pool_geom Unguarded (V4, 167772161) (V6, 5) [] = None.
+Proof. vm_compute. repeat split; reflexivity. Qed.
+Print Assumptions C01_range_unguarded_refuted.
+
+(* in every other case, and always with the repaired loop condition (`addr.IsValid() && ...`), the loop
+   returns exactly lo..hi after hi+1-lo iterations: this is the [range_addrs] every pool theorem uses *)
+Theorem C01_range_loop_terminates :
+  forall g f lo hi, hi <= fam_max f -> (g = true \/ hi < fam_max f) ->
+    range_loop g (S (N.to_nat (hi + 1 - lo))) (XA (f, lo)) (f, hi) =
+    Some (map XA (range_addrs {| p_fam := f; p_lo := lo; p_hi := hi; p_excl := [] |})).
+Proof. intros g f lo hi H1 H2. apply (range_loop_terminates g f hi H1 H2). reflexivity. Qed.
+Print Assumptions C01_range_loop_terminates.
+
+(* repaired, NewPoolAllocator returns for every pair of range ends *)
+Theorem C01_pool_new_total : forall lo hi excl, pool_geom Repaired lo hi excl <> None.
+Proof. intros lo hi excl. unfold pool_geom. simpl. destruct (fam_eqb _ _); discriminate. Qed.
+Print Assumptions C01_pool_new_total.
+
 (* ================================================================ PrefixAllocator (IPv6 PD) *)
 
 (* every index of the pool maps to a prefix that is aligned, inside the network, below 2^128, and
@@ -187,10 +222,75 @@ Print Assumptions C01_pd_confined_unique.
 
 Theorem C01_pd_exhausted_only_when_full :
   forall c ks st evs pre s obs post,
+    pd_wf c = true ->
     pd_run Repaired c ks = Some (st, evs) -> evs = pre ++ (PAlloc s obs, QExhausted) :: post ->
     forall i, i < pd_count c -> lm_lookup (key_of_idx i) (pd_ledger Repaired c pre) <> None.
 Proof. exact pd_exhausted_only_when_full. Qed.
 Print Assumptions C01_pd_exhausted_only_when_full.
+
+(* PD history-level statements mirroring the pool ones; keys of the ledger are indices, tied to
+   prefixes by C01_pd_injective / C01_pd_roundtrip *)
+Theorem C01_pd_ledger_agrees :
+  forall v c ks st evs, pd_plen c <= 128 -> pd_run v c ks = Some (st, evs) -> leases st = pd_ledger v c evs.
+Proof. exact pd_ledger_agrees. Qed.
+Print Assumptions C01_pd_ledger_agrees.
+
+(* nothing leaks: free list = duplicate-free enumeration of the unheld indices; free + held = count *)
+Theorem C01_pd_no_leak :
+  forall c ks st evs, pd_wf c = true -> pd_run Repaired c ks = Some (st, evs) ->
+    NoDup (free st) /\
+    (forall a, In a (free st) <->
+       exists i, a = key_of_idx i /\ i < pd_count c /\
+                 lm_lookup (key_of_idx i) (pd_ledger Repaired c evs) = None) /\
+    (length (free st) +
+     length (filter (fun a => lm_mem a (pd_ledger Repaired c evs)) (assignable_list (pd_pool_cfg c)))
+     = length (assignable_list (pd_pool_cfg c)))%nat.
+Proof. exact pd_no_leak. Qed.
+Print Assumptions C01_pd_no_leak.
+
+(* Reserve of a prefix: no-op when it is not one of the pool's; otherwise granted iff nobody else holds its index *)
+Theorem C01_pd_unique_reserve :
+  forall v c ks st evs pre p s o post, pd_plen c <= 128 ->
+    pd_run v c ks = Some (st, evs) -> evs = pre ++ (PReserve p s, o) :: post ->
+    match prefix_to_index v c p with
+    | None => o = QOk
+    | Some i =>
+        (o = QOk /\ (lm_lookup (key_of_idx i) (pd_ledger v c pre) = None \/
+                     lm_lookup (key_of_idx i) (pd_ledger v c pre) = Some s)) \/
+        (o = QReserved /\ exists s', lm_lookup (key_of_idx i) (pd_ledger v c pre) = Some s' /\ s' <> s)
+    end.
+Proof. exact pd_unique_reserve. Qed.
+Print Assumptions C01_pd_unique_reserve.
+
+(* a released prefix can be delegated again in the next step *)
+Theorem C01_pd_release_then_allocatable :
+  forall c ks st evs p i st1 o s, pd_wf c = true -> pd_run Repaired c ks = Some (st, evs) ->
+    pd_step Repaired c st (PRelease p) = Some (st1, o) -> prefix_to_index Repaired c p = Some i ->
+    exists st2, pd_step Repaired c st1 (PAlloc s (Some (index_to_prefix c i, pd_plen c, 128)))
+                = Some (st2, QPfx (index_to_prefix c i) (pd_plen c) 128).
+Proof. exact pd_release_then_allocatable. Qed.
+Print Assumptions C01_pd_release_then_allocatable.
+
+(* NewPrefixAllocator on /repo HEAD accepts prefix lengths above 128 (PDPool.PrefixLength is a uint8 that
+   nothing validates): every index then yields the base address with a nil mask, so one address is
+   delegated to as many sessions as the pool has indices.  Repaired: such a pool is refused. *)
+Definition ex_pd_big : pdcfg := {| pd_net := 42540766411282592856903984951653826560; pd_nbits := 120; pd_plen := 130 |}.
+Theorem C01_pd_plen_unvalidated_refuted :
+  pd_new Unguarded ex_pd_big = true /\
+  exists st evs ip,
+    pd_run Unguarded ex_pd_big [PAlloc 1 (Some (pd_net ex_pd_big, 0, 0)); PAlloc 2 (Some (pd_net ex_pd_big, 0, 0))]
+      = Some (st, evs) /\
+    map snd evs = [QPfx ip 0 0; QPfx ip 0 0].
+Proof. split; [reflexivity|]. eexists. eexists. eexists. split; vm_compute; reflexivity. Qed.
+Print Assumptions C01_pd_plen_unvalidated_refuted.
+
+Theorem C01_pd_plen_validated :
+  forall c, pd_new Repaired c = true -> pd_net c < W128 -> pd_wf c = true.
+Proof.
+  intros c H N. unfold pd_new in H. unfold pd_wf. simpl in H.
+  apply andb_true_iff in H. destruct H as [H1 H2]. rewrite H1, H2. apply N.ltb_lt in N. rewrite N. reflexivity.
+Qed.
+Print Assumptions C01_pd_plen_validated.
 
 (* non-vacuity: a /62 network given unmasked, /66 prefixes: index 7 spills from the low into the high
    64-bit word; the repaired model rejects the foreign prefix; a history with conflict *)
@@ -279,6 +379,75 @@ Proof.
 Qed.
 Print Assumptions C01_profile_list_sorted.
 
+(* ---- the override clause.  DECISION: "draws only from pools of the subscriber's VRF, in priority order
+   unless an override names a pool" is read as: an override (AAA attribute / service group naming a pool)
+   exempts the allocation from the VRF filter AND from the order, and from nothing else: the pool must
+   belong to the named profile, and its answers are confined and unheld like any other (C01_profile_order).
+   Upstream pins exactly this for all three families: registry_test.go "pool override bypasses VRF check".
+   The three statements below make the exemption explicit. *)
+
+(* every answer that is NOT from the override pool comes from a pool of the subscriber's VRF in the profile's list *)
+Theorem C01_vrf_confined_unless_override :
+  forall pfs ks st evs f pf ov vrf s k o st' r,
+    reg_run_from Repaired (reg_init Repaired pfs) ks = Some (st, evs) ->
+    reg_step Repaired st (RAlloc f pf ov vrf s (Some (k, o))) = Some (st', r) ->
+    (ov = 0 \/ k <> (pf, ov)) ->
+    vrf_of Repaired st f k = vrf /\ In k (pools_of st f pf).
+Proof.
+  intros pfs ks st evs f pf ov vrf s k o st' r H. apply alloc_non_override_vrf.
+  eapply rinv_run; [apply rinv_init | exact H].
+Qed.
+Print Assumptions C01_vrf_confined_unless_override.
+
+(* the override pool is used whenever it has something free - no condition on its VRF *)
+Theorem C01_override_ignores_vrf :
+  forall st f pf ov vrf, ov <> 0 -> has_free st f (pf, ov) = true ->
+    alloc_target Repaired st f pf ov vrf = Some (pf, ov).
+Proof. exact alloc_override_scope. Qed.
+Print Assumptions C01_override_ignores_vrf.
+
+(* override or not, an answer never comes from a pool of another profile *)
+Theorem C01_answers_within_profile :
+  forall pfs ks st evs f pf ov vrf s k o st' r,
+    reg_run_from Repaired (reg_init Repaired pfs) ks = Some (st, evs) ->
+    reg_step Repaired st (RAlloc f pf ov vrf s (Some (k, o))) = Some (st', r) -> fst k = pf.
+Proof.
+  intros pfs ks st evs f pf ov vrf s k o st' r H. apply alloc_within_profile.
+  - eapply rinv_run; [apply rinv_init | exact H].
+  - eapply linv_run; [apply linv_init | exact H].
+Qed.
+Print Assumptions C01_answers_within_profile.
+
+(* a registry call changes an allocator's lease map only by the ledger update (C01_ledger_agrees's
+   [ledger_step]) of the one pool call it makes and the answer that call gave *)
+Theorem C01_registry_ledger_step :
+  forall v st f k mk st' o, on_pool v st f k mk = Some (st', o) ->
+    exists ac ps ps' pc, assoc_find key_eqb k (r_allocs st f) = Some (ac, ps) /\ mk ac = Some pc /\
+      assoc_find key_eqb k (r_allocs st' f) = Some (ac, ps') /\ leases ps' = ledger_step (leases ps) (pc, o).
+Proof. exact on_pool_ledger. Qed.
+Print Assumptions C01_registry_ledger_step.
+
+(* ---- configuration -> geometry (initV4Pools / initV6Pools): the gateway (the pool's, else the IPv4
+   profile's) and every exclude entry / exclude range are unassignable in the allocator that is built;
+   with C01_confined_unique / C01_profile_order they are never handed out *)
+Theorem C01_gateway_never_assignable :
+  forall v f sp c g, spec_geom v f sp = Some (Some (APool c)) -> eff_gw f sp = SAddr g ->
+    assignable c (unmap g) = false.
+Proof. exact spec_gateway_excluded. Qed.
+Print Assumptions C01_gateway_never_assignable.
+
+Theorem C01_excludes_never_assignable :
+  forall v sp c, spec_geom v F4 sp = Some (Some (APool c)) ->
+    (forall a, In (SAddr a, SEmpty) (sp_excl sp) -> assignable c (unmap a) = false) /\
+    (forall a b n, In (SAddr a, SAddr b) (sp_excl sp) -> fst a = fst b -> snd a <= n <= snd b ->
+                   assignable c (unmap (fst a, n)) = false).
+Proof.
+  intros v sp c H. split.
+  - intros a. apply (spec_exclude_single v). exact H.
+  - intros a b n. apply (spec_exclude_range v). exact H.
+Qed.
+Print Assumptions C01_excludes_never_assignable.
+
 (* (repaired) the VRF a pool is filed under depends on pools of its own family only *)
 Theorem C01_vrf_per_family :
   forall f g pf st p k, f <> g ->
@@ -339,7 +508,8 @@ Print Assumptions C01_resolve4_answer.
 
 (* non-vacuity: IPv4 pools in VRF 1 (priorities 5 and 1) and one without VRF; a VRF-1 subscriber is
    served from the priority-1 pool first, then the priority-5 pool, then exhaustion; the VRF-less pool
-   is never used for it; an override is honoured; a PD pool answers; ResolveV6 allocates both parts *)
+   is never used for it; an override naming the VRF-less pool (1,3) IS honoured for the VRF-1 subscriber
+   (the override is exempt from the VRF filter, see above); a PD pool answers; ResolveV6 allocates both parts *)
 Definition ex_reg : list rprofile :=
   [ {| rf_name := 1; rf_fam := F4;
        rf_pools := [ {| rp_name := 1; rp_prio := 5; rp_vrf := 1;
